@@ -52,7 +52,10 @@ class Driver(object):
 
     def items(self, k):
         e = self.live[k]
-        return [[n, self.vid(getattr(e, n))] for n in e.keys]
+        try:
+            return [[n, self.vid(getattr(e, n))] for n in e.keys]
+        except Exception as ex:       # an enumeration that cannot even be listed: visible to the judge, not fatal here
+            return [["#raised " + type(ex).__name__, 99]]
 
     def others(self, k):
         return {o: self.items(o) for o in self.live if o != k}
